@@ -39,6 +39,25 @@ def gen_sites():
     C.write_gen_file("C12Sites", "\n".join(lines) + "\n")
 
 
+def gen_trans_ring():
+    # Lean definitions of RingBuffer.Len / Empty / Offset / Front / Back TRANSLATED from the current source of
+    # ringbuffer.go (Hy/Gen/TransRing.lean; a `*T` result `&r.ring[i]` is the bounds-checked index i);
+    # Props/C12.lean proves them equal to Hy.Ring's len / empty / offsetPos / front / back (ring_*_translation_eq)
+    R = "core/internal/congestion/bbr/ringbuffer.go:RingBuffer."
+    C.gen_translate("Ring", [R + "Len", R + "Empty", R + "Offset", R + "Front", R + "Back"])
+
+
+def gen_trans_bbr():
+    # Lean definitions of the integer-only helpers of the BBR sender TRANSLATED from the current source
+    # (Hy/Gen/TransBbr.lean); Props/C12.lean proves them equal to BbrCore.scaleWnd / minPk * n /
+    # BbrCore.bandwidthFromDelta / BbrSampler.bandwidthFromDelta (bbr_*_translation_eq)
+    B = "core/internal/congestion/bbr/"
+    C.gen_translate("Bbr", [B + "bbr_sender.go:scaleByteWindowForDatagramSize",
+                            B + "bbr_sender.go:minCongestionWindowForMaxDatagramSize",
+                            B + "bandwidth.go:BandwidthFromDelta"],
+                    types={"congestion.ByteCount": "int64"})
+
+
 def utilisation(tier, seed, binaries):
     """Supporting evidence only (no theorem): delivered/capacity on the loss-free fixed-capacity
     traces of the last generated bbr stream, per profile."""
@@ -84,7 +103,7 @@ _BBR_N = {"quick": 400000, "thorough": 2000000}
 CFG = {
     "props_module": "Hy.Props.C12",
     "gen_modules": ["core"],
-    "gen_hooks": [gen_sites],
+    "gen_hooks": [gen_sites, gen_trans_ring, gen_trans_bbr],
     "level": "proof",
     "streams": [
         {"mod": "core", "component": "ring", "driver": "ring", "reset_re": "^reset",
